@@ -268,6 +268,10 @@ def main(tier, seed):
     tasks = [("ctl", (bindir, seed))]
     for i in range(64 if quick else 640):
         tasks.append(("cfg", (bindir, seed * 32452843 + i, 10 if quick else 25, 6 if quick else 10)))
+    patdir = ctx.bin("pat")
+    for i in range(16 if quick else 160):
+        # same monitor, automatic variables pre-filled with a pattern: an unset fallback shows instead of reading a lucky zero
+        tasks.append(("cfg", (patdir, seed * 32452843 + 7000 + i, 10 if quick else 25, 4 if quick else 8)))
     pairs = []
     if quick:
         pairs = [(rng.choice(parse_ok), rng.choice(allloc)) for _ in range(500)]
@@ -284,7 +288,7 @@ def main(tier, seed):
                 "plus --base in dconv, dadd, dround, dseq, dgrep, dtest, ddiff, dsort) run under the baseline (TZ=UTC, LC_ALL=C, fixed clock) and under random settings of TZ (15 values incl. "
                 "POSIX strings, missing files), LANG/LC_ALL/LC_TIME/LANGUAGE (12 values), and the clock injected at gettimeofday()/"
                 "time() (20 instants: epoch, leap days, year ends, 2038, 2100, 3000, 4000 + random, and the real clock); stdout and "
-                "exit status must be identical; on a difference the single responsible setting is isolated; 'control' = the "
+                "exit status must be identical; on a difference the single responsible setting is isolated; a slice is repeated on the 'pat' build (automatic variables pre-filled with a pattern); 'control' = the "
                 "injected clock and TZ are really seen (dconv today / dconv -i %d follow the clock, not TZ); 'locale-pair' = "
                 "dconv/dadd/dround/dseq with --from-locale A and/or --locale B in either order and spelling under random LANG, the text given as argument, as a stdin line or inside a -S line, name-first and number-first layouts: input "
                 "names read from A's table, output names written from B's table (data/locale is the oracle), absent option = "
